@@ -273,7 +273,13 @@ class Effects:
 
         from .index import own_nodes
 
-        for _ in range(2):
+        assumed: set[str] = set()
+        for _ in range(3):
+            # every round starts afresh and may rely on what the previous round established (a local is fresh when all its
+            # bindings are; a binding may mention locals found fresh in the round before)
+            fresh.clear()
+            fresh.update({k: True for k in assumed})
+            self._fresh_cache[f.key + "#partial"] = set(assumed)
             for n in own_nodes(f.node):
                 if isinstance(n, ast.Assign):
                     v = is_fresh_expr(n.value)
@@ -291,6 +297,10 @@ class Effects:
                     fresh[n.target.id] = fresh.get(n.target.id, True) and is_fresh_expr(n.value)
                 elif isinstance(n, ast.withitem) and n.optional_vars is not None and isinstance(n.optional_vars, ast.Name):
                     fresh[n.optional_vars.id] = True
+            now = {k for k, v in fresh.items() if v}
+            if now == assumed:
+                break
+            assumed = now
         out = {k for k, v in fresh.items() if v}
         self._fresh_cache[f.key] = out
         return out
@@ -303,6 +313,10 @@ class Effects:
                  "defaultdict", "Counter", "OrderedDict", "deque", "copy.copy", "copy.deepcopy", "dataclasses.replace"):  # fmt: skip
             return True
         if isinstance(e.func, ast.Attribute) and e.func.attr in ("copy", "clone", "tolist", "tobytes", "astype", "ravel", "flatten", "reshape", "view"):
+            return True
+        if isinstance(e.func, ast.Attribute) and e.func.attr in ("union", "intersection", "difference", "symmetric_difference") and isinstance(e.func.value, ast.Name) \
+                and e.func.value.id in self._fresh_cache.get(f.key + "#partial", ()):
+            # the set algebra of a set built in this call returns a new set (the receiver is known to be a builtin set then)
             return True
         ct = self.ty.type_of(f, e.func)
         if any(a[0] == "type" for a in ct):
